@@ -413,8 +413,22 @@ def run(ctx):
     n_rto = 150 if not thorough else 150 * ctx.scale * 2
     n_tuple = 30 if not thorough else 30 * ctx.scale * 2
     n_nonsym = 8 if not thorough else 60
-    cfgs = [gen_config(r, thorough) for _ in range(n_rto)] + [tuple_config(r, thorough) for _ in range(n_tuple)] \
-        + [gen_config(r, thorough, special="sqrtcov-nonsym") for _ in range(n_nonsym)]
+    def well_posed(gen):
+        """regenerate until the documented posterior precision is comfortably invertible (the property
+        presupposes a proper posterior; float comparisons need a moderate condition number)"""
+        for _ in range(200):
+            cfg = gen()
+            try:
+                gP = gmrf_precision(cuqi, cfg["prior"], cfg["n"]) if cfg["prior"]["type"] == "gmrf" else None
+                H = np.linalg.inv(doc_moments(cfg, gP)[1])
+                if np.all(np.isfinite(H)) and np.linalg.cond(H) < 1e5:
+                    return cfg
+            except np.linalg.LinAlgError:
+                pass
+        raise RuntimeError("generator could not produce a well-posed configuration")
+    cfgs = [well_posed(lambda: gen_config(r, thorough)) for _ in range(n_rto)] \
+        + [well_posed(lambda: tuple_config(r, thorough)) for _ in range(n_tuple)] \
+        + [well_posed(lambda: gen_config(r, thorough, special="sqrtcov-nonsym")) for _ in range(n_nonsym)]
 
     records = []
     forms = {}
@@ -604,6 +618,8 @@ def run_ugla(ctx, cuqi, r, thorough):
                 loc[0] += 1.0
         iface = ["exp", "legacy"][r.randint(2)]
         xk = (r.randint(-4, 5, size=n) / 2.0).astype(float)
+        if np.linalg.cond(A.T @ sp["doc_prec"] @ A) > 1e5:
+            continue
         desc = {"iface": iface, "n": n, "m": m, "A": A.tolist(), "d": d.tolist(), "lik": sp["tag"], "value": np.asarray(sp["value"]).tolist(),
                 "bc": bc, "scale": scale, "beta": beta, "location": loc.tolist(), "locmode": locmode, "x_k": xk.tolist()}
         try:
